@@ -149,6 +149,16 @@ def nonce_script(seed, ntraces, nops, driver, workdir):
                 g.ops.append({"op": "Reopen"})
             elif x < 0.34:
                 g.set_node()
+            elif x < 0.36:
+                # a crowd of other identities, some with fast clocks (they share nothing with n1, n2, a1)
+                # every modelled identity has just been heard (fresh nonce), then the crowd, then the captured requests again
+                v = g.now * 1000 + 7
+                for ident in idents:
+                    g.ops.append({"op": "Nonce", "ident": ident, "v": v, "wallet": ident.startswith("a")})
+                g.ops.append({"op": "NonceFill", "n": rnd.choice([300, 1100, 2100]), "ahead": rnd.choice([0, 90, 1200])})
+                for ident in idents:
+                    g.ops.append({"op": "Nonce", "ident": ident, "v": v - rnd.choice([0, 0, 3]), "wallet": ident.startswith("a")})
+                g.nonces.append(v)
             else:
                 ident = rnd.choice(idents)
                 g.nonce([ident], wallet=ident.startswith("a"))
